@@ -45,6 +45,15 @@ C13_PeerObserves(o) ==
   (HasEnd(o) /\ \E n \in Idx(o) : o[n].k = "term") =>
     LET want == IF Term(o).kind = "fail" THEN "failed" ELSE "finished"
     IN \E n \in Idx(o) : o[n].k = "peerstate" /\ o[n].g = Other(Term(o).g) /\ o[n].kind = want
+(* a client that finishes its session and keeps consuming (its dispatch loop runs) is itself the  *)
+(* observer of the terminal envelope, the server's 'finished', however much traffic of the server *)
+(* is in flight in front of it: it ends in the finished state.  Evaluated on the in-process       *)
+(* transport (peerstate.res = transport kind): over sockets the same observation is open finding   *)
+(* F-C13-7 (the server's close resets the connection under the client's unread data)              *)
+C13_InitiatorObserves(o) ==
+  (HasEnd(o) /\ \E n \in Idx(o) : o[n].k = "term") =>
+    ((Term(o).g = "C" /\ Term(o).kind = "finish") =>
+       \A n \in Idx(o) : (o[n].k = "peerstate" /\ o[n].g = "C" /\ o[n].res = "inproc") => o[n].kind = "finished")
 C13_CleanEnd(o) ==
   (HasEnd(o) /\ \E n \in Idx(o) : o[n].k = "term") =>
     LET ini == Term(o).g
